@@ -123,6 +123,14 @@ Definition fit_state (cfg : config) (x : input) (dim : pyval) : result fitted :=
 
 Definition fit_outcome (cfg : config) (x : input) (dim : pyval) : result unit := void (fit_state cfg x dim).
 
+(* the preprocessor state alone (cross-set models keep one per field) *)
+Definition preprocess_state (cfg : config) (x : input) (dim : pyval) : result fitted :=
+  validate_input_type (input_val x) ;;
+  bind (convert_to_dim_type dim) (fun sample_dims =>
+  bind (preprocess_fit cfg x sample_dims) (fun fis => Ok (mkFitted cfg fis))).
+Definition state_or_empty (cfg : config) (r : result fitted) : fitted :=
+  match r with Ok f => f | Err _ => mkFitted cfg [] end.
+
 (* ------------------------------------------------------------------ transform (single-set model) *)
 (* xarray: `X - self.mean_`, `X * self.weights_` broadcast by dimension name and align shared
    index coordinates with join="inner".  weights_ always carries every fitted feature dimension
